@@ -277,3 +277,13 @@ Example ex_C08_mean_chain_refuted :
   snd (coarsen_cooler_g agg_mean (fst c1) sizes (snd c1) 2 1 1) = [((0,0),2)] /\
   snd (coarsen_cooler_g agg_mean (concat blocks) sizes px 4 1 1) = [((0,0),3)].
 Proof. vm_compute. repeat split; reflexivity. Qed.
+
+(** the coarsener locates a pixel's new bin with float64 true division, [np.floor(start / binsize)]
+    (_reduce.py:616-617); for coordinates and bin sizes below 2^53 that is the exact floor division of the model
+    (Proofs/FloatDiv.v, Flocq).  Depends on the standard library's real-number axioms only. *)
+From Cooler Require Import Proofs.FloatDiv Proofs.FloatDivBridge.
+From Flocq Require Import Core.
+Theorem C08_binary64_relative_bin_exact : forall start b : Z,
+  0 <= start < 2^53 -> 0 < b < 2^53 -> Zfloor (fdiv start b) = start / b.
+Proof. exact floor_fdiv_is_div. Qed.
+Print Assumptions C08_binary64_relative_bin_exact.
